@@ -371,6 +371,29 @@ def campaign(c):
                         c.violation('det:batch-after-failure', 'a file compiled after a member without an output differs from the same file compiled alone (member: %s%s)' % (badm, ', -k' if keep else ''),
                                     dict(src=goodsrc.decode(), out=impl['stdout'][-300:]))
         c.case(('after-failure-no-output', j), dict(kind='batch-after-failure', member=str(badm)))
+    # names of data files are paths, not shell words: `~`, `$VAR`, `%VAR%`, globs in an io::file name are taken literally, so the
+    # result cannot depend on HOME or any other variable
+    dd = tempfile.mkdtemp(prefix='rsenv')
+    try:
+        for sub, fname in (('~', 'payload.bin'), ('$HOME', 'payload.bin'), ('%TMP%', 'payload.bin'), ('${HOME}', 'p.bin'), ('a*', 'p.bin'), ('.', '~payload.bin')):
+            os.makedirs(os.path.join(dd, 'cwd', sub), exist_ok=True)
+            open(os.path.join(dd, 'cwd', sub, fname), 'wb').write(b'from-the-working-directory')
+            for k in (1, 2):
+                os.makedirs(os.path.join(dd, 'home%d' % k), exist_ok=True)
+                open(os.path.join(dd, 'home%d' % k, fname), 'wb').write(b'from-home-%d' % k)
+            prog = ('import io;\nimport eth;\neth::frame("|000000000001|", "|000000000002|", io::file("%s/%s"));\n' % (sub, fname)).encode()
+            open(os.path.join(dd, 'cwd', 'p.rsyn'), 'wb').write(prog)
+            seen = []
+            for e2 in (dict(HOME=os.path.join(dd, 'home1'), TMP=os.path.join(dd, 'home1')), dict(HOME=os.path.join(dd, 'home2'), TMP=os.path.join(dd, 'home2')), dict(), dict(HOME='/nonexistent'), dict(HOME='')):
+                pr = subprocess.run([core.CLI, '-o', os.path.join(dd, 'o.pcap'), 'p.rsyn'], capture_output=True, cwd=os.path.join(dd, 'cwd'), env=dict(PATH='/usr/bin:/bin', **e2), timeout=60)
+                f2 = os.path.join(dd, 'o.pcap')
+                seen.append((pr.returncode, pr.stdout, open(f2, 'rb').read() if os.path.exists(f2) else None))
+                if os.path.exists(f2): os.remove(f2)
+            if len(set(seen)) != 1 or seen[0][0] != 0:
+                c.violation('det:env-datafile', 'io::file("%s/%s") gives different results under different HOME / TMP values (or fails): exits %s' % (sub, fname, [x[0] for x in seen]), dict(src=prog.decode()))
+            c.case(('env-datafile', sub), dict(kind='env-datafile', name=sub + '/' + fname))
+    finally:
+        shutil.rmtree(dd, ignore_errors=True)
     # batches: same files together, in two orders, with failing members
     names = list(progs)
     for b in range(6 if c.quick else 60):
